@@ -290,7 +290,7 @@ func BuildSelect(query *Query, slct *sqlparser.Select) error {
 				continue
 			}
 			qualifier, name, err := BuildColumnName(aliased.Expr)
-			if err != nil || len(qualifier) == 0 || fmt.Sprintf("%s.%s", qualifier, name) != order.Key {
+			if err != nil || len(qualifier) == 0 || qualifiedName(qualifier, name) != order.Key {
 				continue
 			}
 			query.orderByDefinition[i].Key = aliased.ColumnName()
@@ -535,7 +535,7 @@ func BuildGroup(query *Query, group *sqlparser.GroupBy) error {
 			query.groupDefinition[name] = true
 			continue
 		}
-		query.groupDefinition[fmt.Sprintf("%s.%s", qualifier, name)] = true
+		query.groupDefinition[qualifiedName(qualifier, name)] = true
 	}
 	return nil
 }
@@ -563,7 +563,7 @@ func BuildOrder(query *Query, orderBy *sqlparser.OrderBy) error {
 			Key   string
 			Value bool
 		}{
-			Key:   fmt.Sprintf("%s.%s", qualifier, columnName),
+			Key:   qualifiedName(qualifier, columnName),
 			Value: ordeorderBy.Direction == sqlparser.AscOrder,
 		})
 	}
@@ -650,6 +650,16 @@ func BuildLiteral(expr sqlparser.Expr) (sqlparser.ValType, string, error) {
 		return 0, "", INVALID_TYPE.Extend(fmt.Sprintf("failed to build `LITERAL` expression, expected Literal but found %T", expr))
 	}
 	return literal.Type, literal.Val, nil
+}
+
+// qualifiedName is the path of a qualified column. It goes to the selector
+// reader: a key that is not a plain word (u.`first-name`, u.`full name`) is a
+// quoted key there
+func qualifiedName(qualifier string, name string) string {
+	if !plainWord.MatchString(name) && !strings.ContainsAny(name, ".'[]{}:|<>=") {
+		name = fmt.Sprintf("'%s'", name)
+	}
+	return fmt.Sprintf("%s.%s", qualifier, name)
 }
 
 func BuildColumnName(expr sqlparser.Expr) (string, string, error) {
@@ -867,7 +877,7 @@ func Expr(query *Query, current Map, expr sqlparser.Expr, opts ...ExprOption) (a
 			}
 			columnName := name
 			if len(qualifier) > 0 {
-				columnName = fmt.Sprintf("%s.%s", qualifier, name)
+				columnName = qualifiedName(qualifier, name)
 			}
 			if options.hardCodedRead {
 				// the whole name is one key of the row at hand; a name that
